@@ -69,9 +69,35 @@ def shape_of(prog: Program, ci, fi: FuncInfo, e: ast.AST, depth: int = 12):
                             if isinstance(t, ast.Name) and t.id == e.id:
                                 return elem[1 + i]
                     return "?"
+        # a list built by appending in a loop: acc = [] (or a, b = [], []) ... acc.append(X)
+        from ..flow import store_sites
+        sites = store_sites(fi.node, e.id)
+        if sites and all(k in ("assign", "unpack") for (_s, _v, k) in sites):
+            empty = False
+            for (st_, v_, k_) in sites:
+                if k_ == "assign" and isinstance(v_, ast.List) and not v_.elts:
+                    empty = True
+                if k_ == "unpack" and isinstance(st_, ast.Assign) and isinstance(st_.value, ast.Tuple) and isinstance(st_.targets[0], ast.Tuple):
+                    for t_, x_ in zip(st_.targets[0].elts, st_.value.elts):
+                        if isinstance(t_, ast.Name) and t_.id == e.id and isinstance(x_, ast.List) and not x_.elts:
+                            empty = True
+            apps = [n for n in own_nodes(fi) if isinstance(n, ast.Call) and isinstance(n.func, ast.Attribute) and n.func.attr == "append"
+                    and isinstance(n.func.value, ast.Name) and n.func.value.id == e.id and len(n.args) == 1]
+            if empty and apps and len(sites) == 1:
+                shapes = {repr(shape_of(prog, ci, fi, a.args[0], depth - 1)) for a in apps}
+                if len(shapes) == 1:
+                    return ("LIST", shape_of(prog, ci, fi, apps[0].args[0], depth - 1))
         o = origin(fi.node, e)
         if o is not e:
             return shape_of(prog, ci, fi, o, depth - 1)
+        rd0 = reaching_def(fi.node, e, e.id)
+        if rd0 is not None and rd0[2] == "unpack" and isinstance(rd0[1], ast.Assign) and isinstance(rd0[1].targets[0], ast.Tuple):
+            # a, b = <call returning a pair>
+            src = shape_of(prog, ci, fi, rd0[1].value, depth - 1)
+            if isinstance(src, tuple) and src[0] == "PAIR" and len(rd0[1].targets[0].elts) == 2:
+                for i_, t_ in enumerate(rd0[1].targets[0].elts):
+                    if isinstance(t_, ast.Name) and t_.id == e.id:
+                        return src[1 + i_]
         rd = reaching_def(fi.node, e, e.id)
         if rd is not None and rd[2] == "unpack":
             return "?"
@@ -90,7 +116,8 @@ def shape_of(prog: Program, ci, fi: FuncInfo, e: ast.AST, depth: int = 12):
         return Lst
     if isinstance(e, ast.Call):
         d = dotted(e.func) or ""
-        if d in ("np.zeros", "np.ones", "np.array", "numpy.zeros", "numpy.ones", "numpy.array", "np.full"):
+        if d in ("np.zeros", "np.ones", "np.array", "numpy.zeros", "numpy.ones", "numpy.array", "np.full", "numpy.full", "np.repeat",
+                 "np.zeros_like", "np.ones_like", "np.full_like", "np.empty"):
             return Lst
         if d in ("len", "int", "float", "np.random.uniform", "np.random.choice", "np.random.randint", "min", "max") and \
                 not any(k.arg == "size" for k in e.keywords):
@@ -104,6 +131,8 @@ def shape_of(prog: Program, ci, fi: FuncInfo, e: ast.AST, depth: int = 12):
             # a child's protocol method: children are scalar kinds
             return ("PAIR", S, S) if e.func.attr == "get_bounds" else S
         return "?"
+    if isinstance(e, ast.BinOp) and isinstance(e.op, ast.Mult) and (isinstance(e.left, ast.List) or isinstance(e.right, ast.List)):
+        return Lst      # [x] * n
     if isinstance(e, ast.BinOp):
         l, r = shape_of(prog, ci, fi, e.left, depth - 1), shape_of(prog, ci, fi, e.right, depth - 1)
         if Lst in (l, r):
